@@ -215,6 +215,8 @@ def run(model: RepoModel, rep, tier: str):
 
     _r4_keyword_order(model, rep)
     _r5_per_callee_accumulation(model, rep, st, gss)
+    from .c10 import check_summary_accumulates
+    check_summary_accumulates(model, rep, "C07.R6", declare=True)
 
 
 DU = "basics/stmt_def_use_analysis.py"
